@@ -67,7 +67,13 @@ def gen_tree(rng, scratch: str) -> typing.Tuple[Tree, typing.List[bytes], typing
     t.file(b"latin-dir/.cap/doc.txt", b"Abstract=cap caf\xe9\n")
     t.file(b"mapped-dir/gophermap", "Hello from a gophermap\n0A file\tfile.txt\n1Remote\t/x\thost.example\t70\n"
            # links to members that are there by name but resolve to nothing
-           "0Dangling\tdangling\n0Loop\tloop-a\n1Link to dir\tto-sub\n0Missing\tnothing-here\n")
+           "0Dangling\tdangling\n0Loop\tloop-a\n1Link to dir\tto-sub\n0Missing\tnothing-here\n"
+           # directories named the way gophermap authors usually do, with a slash at the end; one has sidecars
+           "1Sub with a slash\tsub/\n1Described with a slash\tdescribed/\n1Through a link, with a slash\tto-sub/\n"
+           "1Described, plain\tdescribed\n0A file with a slash\tfile.txt/\n")
+    t.file(b"mapped-dir/described/inside.txt", "inside\n")
+    t.file(b"mapped-dir/described/.abstract", "Abstract of the described directory")
+    t.file(b"mapped-dir/described/.keywords", "described, keywords")
     t.symlink(b"mapped-dir/dangling", b"no-such-member")
     t.symlink(b"mapped-dir/loop-a", b"loop-b")
     t.symlink(b"mapped-dir/loop-b", b"loop-a")
